@@ -32,6 +32,11 @@ def make_case(rng):
     kind = str(rng.choice(["1d", "2d"]))
     fs = float(rng.choice([0.5, 1.0, 2.5, 4.0, 10.0])) if rng.uniform() < 0.4 else float(np.round(rng.uniform(0.5, 10.0), int(rng.integers(1, 4))))
     L = int(rng.choice([8, 9, 16, 33, 100, 257, 1000, 1001, 4096, 20000]))
+    if rng.uniform() < 0.45:
+        # any length, not only "nice" ones: log-uniform in 8..20000 (halves with large prime factors included)
+        L = int(np.exp(rng.uniform(np.log(8), np.log(20000))))
+        if rng.uniform() < 0.4:
+            L = int(rng.integers(8193, 20001))
     fk = str(rng.choice(["uniform", "random", "log"]))
     nf = int(rng.integers(5, 40))
     # frequency grid scaled so that part of it lies inside (0, fs/2)
@@ -152,6 +157,43 @@ def judge(ctx, c):
                   case=wit, key="C16:scale")
 
 
+def judge_batch(ctx, c):
+    """a spectrum object holding several spectra (dims (time, frequency[, direction]) - the default layout of the
+    create_* functions): one series per member, each carrying the variance of its own resampled spectrum"""
+    from ocean_science_utilities.wavespectra.spectrum import create_1d_spectrum, create_2d_spectrum
+    from ocean_science_utilities.wavespectra.timeseries import surface_timeseries
+    f, e = np.asarray(c["freq"], float), np.asarray(c["e"], float)
+    scales = np.asarray(c["member_scales"], float)
+    n = len(scales)
+    tt = np.arange(n) * 3600
+    if c["kind"] == "1d":
+        z = np.zeros((n, len(f)))
+        s = create_1d_spectrum(f, scales[:, None] * e[None, :], tt, np.zeros(n), np.zeros(n), z, z, z, z, depth=np.full(n, np.inf))
+    else:
+        nd = int(c["nd"])
+        E = np.zeros((n, len(f), nd))
+        E[:, :, int(c["bin"])] = scales[:, None] * e[None, :] / (360.0 / nd)
+        s = create_2d_spectrum(f, np.arange(nd) * 360.0 / nd, E, tt, np.zeros(n), np.zeros(n), depth=np.full(n, np.inf))
+    fs, L, seed = c["fs"], c["L"], c["seed"]
+    wit = lambda: dict(c, batch=True)  # noqa
+    ctx.case(("batch", c["kind"], n), nontrivial=True, sample={"members": n, "scales": scales, "fs": fs, "L": L})
+    for comp in ("z", "w"):
+        ok, r = guarded(ctx, "C16.no-exception", lambda: surface_timeseries(comp, fs, L, s, seed=seed), wit, key="C16:exception:batch")
+        if not ok:
+            return
+        x = np.asarray(r[1], float)
+        if x.ndim != 2 or x.shape[0] != n:
+            ctx.check("C16.len(time)==len(series)", False, wit, {"series_shape": x.shape, "members": n}, key="C16:batch:shape")
+            return
+        ctx.check("C16.len(time)==len(series)", x.shape[1] == len(r[0]), wit, {"series_shape": x.shape, "len_time": len(r[0])},
+                  key="C16:batch:length")
+        _, vz, vw = oracle_variances(c, n=x.shape[1])
+        want = scales * (vz if comp == "z" else vw)
+        ctx.count("C16.batch_members_judged", n)
+        ctx.close("C16.var(z)==sum(E*df)" if comp == "z" else "C16.var(w)==sum(w^2*E*df)", np.var(x, axis=1), want,
+                  atol=1e-300, rtol=1e-9, case=wit, key="C16:batch:var:" + comp)
+
+
 def judge_history(ctx, c):
     """the same spectrum object used again: at another sampling rate (same length), and after it was rescaled in place"""
     from ocean_science_utilities.wavespectra.timeseries import surface_timeseries
@@ -185,10 +227,14 @@ def run_shard(ctx, shard):
         judge(ctx, c)
         if i % 3 == 0:
             judge_history(ctx, dict(c, fs2=float(c["fs"] * rng.choice([0.5, 2.0, 1.3, 0.2]))))
+        if i % 3 == 1:
+            judge_batch(ctx, dict(c, member_scales=rng.uniform(0.2, 3.0, int(rng.integers(2, 5)))))
 
 
 def replay(ctx, case):
-    if case.get("history"):
+    if case.get("batch"):
+        judge_batch(ctx, case)
+    elif case.get("history"):
         judge_history(ctx, case)
     else:
         judge(ctx, case)
